@@ -10,6 +10,8 @@ package weshnet
 // replica's log (driver) and, here, with the state of the other replicas holding the same entries.
 
 import (
+	"berty.tech/go-orbit-db/stores"
+	"github.com/libp2p/go-libp2p/p2p/host/eventbus"
 	"bytes"
 	"context"
 	crand "crypto/rand"
@@ -692,11 +694,39 @@ func (w *c04world) deliverIndexed(ms *MetadataStore, heads ...ipfslog.Entry) {
 	if !missing {
 		return
 	}
+	// the store saves the heads it has merged AFTER the index update and announces the replication after
+	// that: a store closed in between (what a reopening plan does next) comes back empty, which is no
+	// matter of the index.  So the announcement is waited for as well - for a moment only, because an
+	// index update that fails (the reason for this function) is followed by neither
+	sub, err := ms.EventBus().Subscribe(new(stores.EventReplicated), eventbus.BufSize(32))
+	if err != nil {
+		w.t.Fatal(err)
+	}
+	defer sub.Close()
 	if err := ms.Sync(w.ctx, heads); err != nil {
 		w.t.Fatal(err)
 	}
 	idx := ms.Index().(*metadataStoreIndex)
 	deadline := time.Now().Add(20 * time.Second)
+	defer func() {
+		grace := time.After(time.Second)
+		for {
+			select {
+			case <-sub.Out():
+				all := true
+				for _, h := range heads {
+					if !vHas(ms.OpLog(), h) {
+						all = false
+					}
+				}
+				if all {
+					return
+				}
+			case <-grace:
+				return
+			}
+		}
+	}()
 	for {
 		done := true
 		for _, h := range heads {
